@@ -259,7 +259,8 @@ class CallMixin:
             for nm, k in c.get('late_locals', {}).items():
                 from .engine import wf
                 q.env[nm] = self.make_value(k, '%s_%s@%d' % (fn.qualname.split('.')[-1], nm, line), p); p.assume(wf(q.env[nm]))
-            res = self.make_result(c.get('returns'), fn.qualname + '@%d' % line)
+            rk = c.get('returns')
+            res = self.make_object(rk[1], p, 'ret_%s@%d' % (fn.qualname, line)) if isinstance(rk, tuple) and rk[0] == 'obj' else self.make_result(rk, fn.qualname + '@%d' % line)
             if res is not None:
                 self.bind_result(q.env, res)
                 from .engine import wf
@@ -490,6 +491,13 @@ class CallMixin:
                 return VStr(atoms)
             if name == 'replace': return self.str_replace(recv, a, p, line)
             if name == 'split': return self.str_split(recv, a, p, line)
+        if isinstance(recv, VLine):
+            from . import models_basic
+            if name == 'replace' and len(a) == 2 and isinstance(a[0], VStr) and a[0].atoms == [':'] and isinstance(a[1], VStr) and not a[1].atoms: return recv
+            if name == 'split' and not a:
+                p.assume(models_basic.LTOKLEN(recv.t) >= 0)
+                return models_basic.line_tokens(self, recv.t)
+            raise Undecided('line method ' + name)
         if isinstance(recv, VReal) and name == 'total_seconds': return recv          # timedelta modelled as seconds (T12)
         if isinstance(recv, VReal) and name == 'strftime': return VStr([('pure', 'strftime', [recv])])
         if isinstance(recv, VTok) and name == 'replace':
